@@ -6,6 +6,7 @@ package nodehx
 import (
 	"fmt"
 	"math/big"
+	"os"
 	"sort"
 	"strconv"
 	"time"
@@ -212,15 +213,22 @@ func SortedKeys(m map[string]uint64) []string {
 
 // ---- recording StateDB: the ledger primitives the EVM issues, with snapshot/revert markers ----
 type Prim struct {
-	Kind byte // 's' SubBalance, 'a' AddBalance, 'k' Suicide, 'n' Snapshot, 'r' RevertToSnapshot
+	Kind byte // 's' SubBalance, 'a' AddBalance, 'k' Suicide, 'n' Snapshot, 'r' RevertToSnapshot, 'o' opcode entered, 'e' AUTHCALL left
 	A    common.Address
 	V    *big.Int
 	Id   int
+	// 'o': an instrumented opcode (src/vm/verif_c06.go) is about to run in contract A
+	Op       byte
+	Args     []*big.Int // operands, top of stack first
+	HasMiner bool       // GetMinerIdByAccount(A) finds a miner that GetMiner returns (read when the opcode starts)
+	Stake    uint64     // that miner's stake then
+	Res      *big.Int   // what the opcode pushed; -1: it returned an error; nil: not finished
 }
 
 type RecDB struct {
 	*account.AccountDB
 	Prims []Prim
+	open  []int // indices of 'o' prims whose opcode has not returned yet
 }
 
 func (r *RecDB) SubBalance(a common.Address, v *big.Int) *big.Int {
@@ -245,28 +253,107 @@ func (r *RecDB) RevertToSnapshot(id int) {
 	r.AccountDB.RevertToSnapshot(id)
 }
 
-// Ev is a model-level ledger event: "V" value movement, "K" suicide, "S" snapshot, "R" revert.
+// RecordOp is the callback for vm.VerifC06Instrument: opcode-level observations go into the same stream.
+func (r *RecDB) RecordOp(ev *vm.VerifC06OpEvent) {
+	if !ev.Done {
+		p := Prim{Kind: 'o', A: ev.Contract, Op: byte(ev.Op), Args: ev.Args}
+		if ev.Op != vm.AUTHCALL {
+			if id := service.MinerManagerImpl.GetMinerIdByAccount(ev.Contract.Bytes(), r.AccountDB); id != nil {
+				if m := service.MinerManagerImpl.GetMiner(id, r.AccountDB); m != nil {
+					p.HasMiner, p.Stake = true, m.Stake
+				}
+			}
+		}
+		r.Prims = append(r.Prims, p)
+		r.open = append(r.open, len(r.Prims)-1)
+		return
+	}
+	i := r.open[len(r.open)-1]
+	r.open = r.open[:len(r.open)-1]
+	switch {
+	case ev.Err != nil:
+		r.Prims[i].Res = big.NewInt(-1)
+	case ev.Result != nil:
+		r.Prims[i].Res = ev.Result
+	default:
+		r.Prims[i].Res = big.NewInt(-1)
+	}
+	if ev.Op == vm.AUTHCALL {
+		r.Prims = append(r.Prims, Prim{Kind: 'e'})
+	}
+}
+
+// Ev is a model-level event: "V" value movement, "K" suicide, "S" snapshot, "R" revert (ledger primitives seen at the
+// StateDB interface); "A" the value movement of an AUTHCALL (A = sponsor), "St" STAKE, "Us" UNSTAKE, "Ua" UNSTAKEALL
+// (A = the running contract, V = the amount operand, opcode-level facts in HasMiner / Stake / Res).
 type Ev struct {
-	Kind string
-	A, B common.Address
-	V    *big.Int
-	Id   int
+	Kind     string
+	A, B     common.Address
+	V        *big.Int
+	Id       int
+	HasMiner bool
+	Stake    uint64
+	Res      *big.Int
+}
+
+// wordAddr: the low 20 bytes of a stack word, as popAddress reads it.
+func wordAddr(w *big.Int) common.Address {
+	var a common.Address
+	b := w.Bytes()
+	if len(b) > len(a) {
+		b = b[len(b)-len(a):]
+	}
+	copy(a[len(a)-len(b):], b)
+	return a
 }
 
 // ParseTrace groups primitives into events; false when a primitive does not fit a known pattern.
 func ParseTrace(ps []Prim) ([]Ev, bool) {
 	var out []Ev
+	var auth *Prim // an AUTHCALL has started and its value movement has not been seen yet
 	for i := 0; i < len(ps); i++ {
 		p := ps[i]
+		if p.Kind != 'n' && p.Kind != 's' {
+			auth = nil
+		}
 		switch p.Kind {
+		case 'o':
+			if p.Res == nil {
+				return out, false
+			}
+			switch vm.OpCode(p.Op) {
+			case vm.AUTHCALL:
+				auth = &ps[i]
+			case vm.STAKE:
+				out = append(out, Ev{Kind: "St", A: p.A, V: p.Args[0], HasMiner: p.HasMiner, Stake: p.Stake, Res: p.Res})
+			case vm.UNSTAKE:
+				out = append(out, Ev{Kind: "Us", A: p.A, V: p.Args[0], HasMiner: p.HasMiner, Stake: p.Stake, Res: p.Res})
+			case vm.UNSTAKEALL:
+				out = append(out, Ev{Kind: "Ua", A: p.A, V: new(big.Int), HasMiner: p.HasMiner, Stake: p.Stake, Res: p.Res})
+			default:
+				return out, false
+			}
+		case 'e':
 		case 's':
 			if i+1 < len(ps) && ps[i+1].Kind == 'a' && ps[i+1].V.Cmp(p.V) == 0 {
-				out = append(out, Ev{Kind: "V", A: p.A, B: ps[i+1].A, V: p.V})
+				kind := "V"
+				if auth != nil {
+					// opAuthCall operands: nonce, gas, addr, value, ...: the movement must be the one the opcode asked for
+					if wordAddr(auth.Args[2]) != ps[i+1].A || auth.Args[3].Cmp(p.V) != 0 {
+						return out, false
+					}
+					kind, auth = "A", nil
+				}
+				out = append(out, Ev{Kind: kind, A: p.A, B: ps[i+1].A, V: p.V})
 				i++
 			} else {
 				return out, false
 			}
 		case 'a':
+			if p.V.Sign() == 0 && !(i+1 < len(ps) && ps[i+1].Kind == 'k') {
+				// evm.StaticCall touches the callee with AddBalance(addr, 0): no ledger effect
+				continue
+			}
 			if i+1 < len(ps) && ps[i+1].Kind == 'k' {
 				out = append(out, Ev{Kind: "K", A: ps[i+1].A, B: p.A, V: p.V})
 				i++
@@ -340,6 +427,9 @@ func ExtractContract(adb *account.AccountDB, tx *types.Transaction, header *type
 	vmCtx.GasLimit = gasLimit - intrinsic
 	rec := &RecDB{AccountDB: adb}
 	evm := vm.NewEVMWithNFT(vmCtx, rec, adb)
+	if !vm.VerifC06Instrument(evm, []vm.OpCode{vm.STAKE, vm.UNSTAKE, vm.UNSTAKEALL, vm.AUTHCALL}, rec.RecordOp) {
+		panic("nodehx: evm not instrumentable")
+	}
 	caller := vm.AccountRef(vmCtx.Origin)
 	var left uint64
 	var eerr error
@@ -362,6 +452,11 @@ func ExtractContract(adb *account.AccountDB, tx *types.Transaction, header *type
 	}
 	info.GasUsed = gasLimit - left
 	info.Trace, info.Parsed = ParseTrace(rec.Prims)
+	if !info.Parsed && os.Getenv("C06_DEBUG") != "" {
+		for _, p := range rec.Prims {
+			fmt.Printf("PRIM %c %s v=%v id=%d op=%#x args=%v res=%v\n", p.Kind, p.A.GetHexString(), p.V, p.Id, p.Op, p.Args, p.Res)
+		}
+	}
 	return info
 }
 
@@ -402,6 +497,58 @@ func RunPrefix(adb *account.AccountDB, h uint64, castor, groupId []byte, txs []*
 	b := &types.Block{Header: hd, Transactions: append([]*types.Transaction{}, txs...)}
 	_, rs, ctx := core.VerifC06ExecuteBlockCtx(adb, b, "testing")
 	return rs, ctx
+}
+
+// Stepper runs the transactions of one block one by one on an AccountDB the way the VMExecutor loop does under the dev
+// configuration (every proposal active), WITHOUT finalising in between: the state a later transaction of the block
+// really sees (a contract that self-destructed earlier in the block is still there). It exists only to obtain those
+// intermediate states; the harness checks it against the real loop (same receipts, same ledger after the last tx).
+type Stepper struct {
+	ADB    *account.AccountDB
+	Ctx    map[string]interface{}
+	Header *types.BlockHeader
+	i      int
+}
+
+func NewStepper(adb *account.AccountDB, header *types.BlockHeader) *Stepper {
+	common.SetBlockHeight(header.Height)
+	return &Stepper{ADB: adb, Header: header,
+		Ctx: map[string]interface{}{"chain": Chain, "situation": "verif", "refund": make(map[uint64]types.RefundInfoList)}}
+}
+
+// Step executes tx; returns (status ok, gasUsed as the receipt would carry it, skipped: refused without receipt).
+func (s *Stepper) Step(tx *types.Transaction) (bool, uint64, bool) {
+	adb := s.ADB
+	adb.Prepare(tx.Hash, common.Hash{}, s.i)
+	ex := executor.GetTxExecutor(tx.Type)
+	success, addAble, _ := ex.BeforeExecute(tx, s.Header, adb, s.Ctx)
+	if !addAble {
+		return false, 0, true
+	}
+	if success {
+		snap := adb.Snapshot()
+		success, _ = ex.Execute(tx, s.Header, adb, s.Ctx)
+		if !success {
+			adb.RevertToSnapshot(snap)
+			if types.IsContractTx(tx.Type) {
+				if gu := s.Ctx["gasUsed"]; gu != nil {
+					core.VerifC06DeductGasFee(gu.(uint64), tx.Source, adb, tx.Hash)
+				}
+			}
+		}
+	}
+	if !(types.IsContractTx(tx.Type) && success) {
+		src := common.HexToAddress(tx.Source)
+		adb.SetNonce(src, adb.GetNonce(src)+1)
+	}
+	delete(s.Ctx, "logs")
+	delete(s.Ctx, "contractAddress")
+	var gasUsed uint64
+	if gu, ok := s.Ctx["gasUsed"].(uint64); ok {
+		gasUsed = gu
+	}
+	s.i++
+	return success, gasUsed, false
 }
 
 var reqId uint64
